@@ -6,7 +6,7 @@
    the prefixes of src.  [key_inj sname S]: session names are distinct (they are
    the keys of the map the sessions live in). *)
 From Coq Require Import String NArith Bool List Permutation Sorted.
-From Verif Require Import Model.FrrSpec Model.FrrK8s Proofs.FrrSortP Proofs.FrrK8sP Proofs.FrrK8sEqP Model.FrrMgr Proofs.FrrMgrP.
+From Verif Require Import Model.FrrSpec Model.FrrK8s Proofs.FrrSortP Proofs.FrrK8sP Proofs.FrrK8sEqP Model.FrrMgr Proofs.FrrMgrP Proofs.FrrWfP Proofs.FrrAdvPermP Proofs.FrrK8sAdvP.
 Import ListNotations.
 Open Scope string_scope.
 
@@ -70,13 +70,15 @@ Theorem C15_k8s_router_prefixes_exact : forall S k r,
     exact_pfx_set (kr_prefixes r) (map a_pfx (flat_map s_advs (first :: rest))).
 Proof. exact k_router_spec. Qed.
 
-(* the configuration targets only this node *)
+(* the configuration targets only this node (BY DEFINITION: the literal of k8s_render; weight = per-case equality) *)
 Theorem C15_k8s_node_selector : forall node S c, k8s_render node S = Some c ->
   kc_node_selector c = [("kubernetes.io/hostname", node)] /\ kc_name c = "metallb-" ++ node.
 Proof. exact k8s_render_selector. Qed.
 
-(* session parameters are carried verbatim ... *)
-Theorem C15_k8s_params : forall s n, k_neighbor s = Some n ->
+(* session parameters are carried verbatim ... PARTIAL: all parameters but the source address (F24, refuted below).
+   BY DEFINITION: restates the neighbor literal of the model function k_neighbor; its weight is the per-case
+   equality of the real FRRConfiguration with the model (Run_FrrK8s code 1) *)
+Theorem C15_k8s_params_partial : forall s n, k_neighbor s = Some n ->
   kn_address n = s_addr s /\ kn_interface n = s_iface s /\ kn_asn n = s_peerasn s /\ kn_dynasn n = s_dynasn s /\
   kn_port n = s_port s /\ kn_hold n = s_hold s /\ kn_keep n = s_keep s /\ kn_connect n = s_connect s /\
   kn_bfd n = s_bfd s /\ kn_gr n = s_gr s /\ kn_multihop n = s_multihop s /\ kn_disable_mp n = s_disable_mp s /\
@@ -84,7 +86,7 @@ Theorem C15_k8s_params : forall s n, k_neighbor s = Some n ->
 Proof. exact k_neighbor_params. Qed.
 
 (* ... except the source address (finding F24): "all session parameters are
-   carried" is refuted; C15_k8s_params above is the partial statement *)
+   carried" is refuted; C15_k8s_params_partial above is the partial statement *)
 Theorem C15_k8s_params_source_refuted : exists s n,
   k_neighbor s = Some n /\ s_src s = Some "10.1.1.254" /\ kn_source n = "".
 Proof.
@@ -92,10 +94,12 @@ Proof.
   eexists. split; [vm_compute; reflexivity|]. split; reflexivity.
 Qed.
 
+(* by definition of k_neighbor *)
 Theorem C15_k8s_source_always_dropped : forall s n, k_neighbor s = Some n -> kn_source n = "".
 Proof. exact k_neighbor_source_dropped. Qed.
 
-(* either the password or the secret reference, never both *)
+(* either the password or the secret reference, never both (by definition: the guard of k_neighbor = the guard
+   in updateConfig; "neither" is allowed) *)
 Theorem C15_k8s_password_xor : forall s n, k_neighbor s = Some n ->
   nonempty (kn_password n) && negb (secret_empty (kn_secret n)) = false.
 Proof. exact k_neighbor_password_xor. Qed.
@@ -125,6 +129,12 @@ Theorem C15_k8s_perm : forall node S S',
   k8s_render node S = k8s_render node S'.
 Proof. exact k8s_render_perm. Qed.
 
+(* ... and of the order of each session's advertisement list ([adv_perm s s']: s' is s with its list permuted);
+   only "a prefix text determines the prefix" is needed *)
+Theorem C15_k8s_perm_advs : forall node S S',
+  key_inj p_text (map a_pfx (flat_map s_advs S)) -> Forall2 adv_perm S S' -> k8s_render node S = k8s_render node S'.
+Proof. exact k8s_render_advperm. Qed.
+
 (* the FRRConfiguration, read per neighbor ([sem_k8s]: Allowed, PrefixesWithLocalPref,
    PrefixesWithCommunity with the "large:" marker, DisableMP activation), offers each
    neighbor exactly what its session requests in the activated families.
@@ -135,9 +145,15 @@ Theorem C15_k8s_out_offered : forall node S c s p,
   attrs_equiv (sem_k8s c s p) (offered s p).
 Proof. exact k8s_out_offered. Qed.
 
-(* k8s_eq_frr: it denotes the same per-neighbor routes as the FRR-mode
-   configuration generated from the same sessions, for both values of both
-   parameters of the FRR semantics *)
+(* k8s_eq_frr: it denotes the same per-neighbor routes as the FRR-mode configuration generated from the same
+   sessions, for both values of both parameters of the FRR semantics.
+   WHAT THIS COMPARES: two MODEL semantics.  [sem_out] is the FRR route-map semantics of FrrSem.v (H-frr);
+   [sem_k8s] / [read_nbr] is MY reading of the CRD (Allowed / PrefixesWithLocalPref / PrefixesWithCommunity with the
+   "large:" marker) - frr-k8s itself is not in this repository, its renderer is not modelled.  In particular the
+   per-family activation [k_activated] re-uses the FRR-mode function [activate] verbatim, so the F15 behaviour is
+   ASSUMED on the frr-k8s side as well and that part of the equality holds by construction.  What the theorem
+   establishes: updateConfig puts into the resource exactly the (prefix, local preference, communities) content
+   that the FRR-mode templates turn into route-maps.  C15_k8s_eq_frr_nonvacuous: the premises are jointly satisfiable *)
 Theorem C15_k8s_eq_frr : forall ft um node S f c s p,
   wf_sessions S -> key_inj sname S -> comms_ok S -> route_ok S p ->
   render S = Some f -> k8s_render node S = Some c -> In s S ->
@@ -148,7 +164,9 @@ Proof. exact k8s_eq_frr. Qed.
 Theorem C15_render_lp_consistent : forall S c s, wf_sessions S -> render S = Some c -> In s S -> lp_consistent s.
 Proof. exact render_lp_consistent. Qed.
 
-(* ===== the session manager (Model/FrrMgr.v), frr-k8s mode: histories ===== *)
+(* ===== the session manager (Model/FrrMgr.v), frr-k8s mode: histories =====
+   NOT for arbitrary operation sequences: [hist_ok] = NewSession only for a name not in the table (necessary:
+   C15_mgr_history_in_sync_refuted; such histories exist: C15_mgr_hist_ok_nonvacuous) *)
 Theorem C15_mgr_history_in_sync : forall node ops st oks last,
   hist_ok (gen_k8s node) false (fun _ => True) minit ops -> mrun (gen_k8s node) false minit None ops = (st, oks, last) ->
   cfg_of (gen_k8s node) st <> None /\ ((last = None /\ st = minit) \/ last = cfg_of (gen_k8s node) st).
@@ -173,6 +191,61 @@ Proof. intro node. exact (set_invalid_refused (gen_k8s node) false). Qed.
 (* updateConfig succeeds iff no session carries both a password and a secret reference *)
 Theorem C15_k8s_render_some : forall node S, (forall s, In s S -> k_neighbor s <> None) -> k8s_render node S <> None.
 Proof. exact k8s_render_some. Qed.
+
+Example C15_k8s_eq_frr_nonvacuous :
+  let p := mk_pfx "172.16.1.10/32" {| pfam := F4; pbase := 2886730010; plen := 32 |} in
+  let q := mk_pfx "fc00:f853:ccd:e799::/64" {| pfam := F6; pbase := 334965454937798799971759379190646833152; plen := 64 |} in
+  let s1 := mk_session 100 (Some "10.1.1.254") "" "10.2.2.254" true "" 200 "" None 179 None None None "" "" false false false
+              [mk_adv p 300 [(false, "65000:200"); (true, "64512:1:2")]; mk_adv p 300 [(false, "65000:100")]; mk_adv q 0 [(false, "65000:100")]] ("", "") in
+  let s2 := mk_session 100 (Some "10.1.1.254") "" "192.168.1.1" true "" 200 "" None 179 None None None "" "" false false true [] ("", "") in
+  let S := [s2; s1] in
+  wf_sessions S /\ key_inj sname S /\ comms_ok S /\ route_ok S p /\
+  exists f c, render S = Some f /\ k8s_render "n" S = Some c /\
+    sem_k8s c s1 p = Some (mk_attrs (Some 300%N) ["65000:100"; "65000:200"] ["64512:1:2"]) /\
+    forall ft um, attrs_equiv (sem_k8s c s1 p) (sem_out ft um f (s_vrf s1) (peer_tok s1) p).
+Proof.
+  intros p q s1 s2 S.
+  assert (W: wf_sessions S) by (apply wf_sessions_b_sound; vm_compute; reflexivity).
+  assert (K: key_inj sname S).
+  { intros x y Hx Hy E. simpl in Hx, Hy. destruct Hx as [<-|[<-|[]]], Hy as [<-|[<-|[]]]; try reflexivity; vm_compute in E; discriminate. }
+  assert (Cm: comms_ok S) by (apply comms_ok_b_sound; vm_compute; reflexivity).
+  assert (R: route_ok S p) by (apply route_ok_b_sound; vm_compute; reflexivity).
+  split; [exact W|]. split; [exact K|]. split; [exact Cm|]. split; [exact R|].
+  destruct (render S) as [f|] eqn:Ef; [|vm_compute in Ef; discriminate].
+  destruct (k8s_render "n" S) as [c|] eqn:Ec; [|vm_compute in Ec; discriminate].
+  exists f, c. split; [reflexivity|]. split; [reflexivity|]. split.
+  - vm_compute in Ec. inversion Ec; subst c. vm_compute. reflexivity.
+  - intros ft um. apply (k8s_eq_frr ft um "n" S f c s1 p W K Cm R Ef Ec). right; left; reflexivity.
+Qed.
+
+(* the fresh-name premise of the history theorems is NECESSARY in frr-k8s mode: a NewSession that FAILS (password
+   and secret reference both set) for a name that is already in the table deletes the EXISTING session by name
+   (deleteSession(s) in the error branch of NewSession, frrk8s.go) and hands nothing on: the last configuration
+   handed on still contains that session while the manager's state no longer does *)
+Theorem C15_mgr_history_in_sync_refuted : exists node ops st oks last,
+  mrun (gen_k8s node) false minit None ops = (st, oks, last) /\ oks = [true; true; false] /\
+  ms_sessions st = [] /\ last <> None /\ last <> cfg_of (gen_k8s node) st.
+Proof.
+  pose (p := mk_pfx "172.16.1.10/32" {| pfam := F4; pbase := 2886730010; plen := 32 |}).
+  pose (s := mk_session 100 (Some "10.1.1.254") "" "10.2.2.254" true "" 200 "" None 179 None None None "" "" false false false [] ("", "")).
+  pose (s' := mk_session 100 (Some "10.1.1.254") "" "10.2.2.254" true "" 200 "" None 179 None None None "pw" "" false false false [] ("sec", "ns")).
+  exists "n", [MNew s; MSet s [mk_adv p 0 []]; MNew s']. eexists. eexists. eexists.
+  split; [vm_compute; reflexivity|]. split; [reflexivity|]. split; [reflexivity|]. split; [discriminate|]. vm_compute. discriminate.
+Qed.
+
+Example C15_mgr_hist_ok_nonvacuous :
+  let p := mk_pfx "172.16.1.10/32" {| pfam := F4; pbase := 2886730010; plen := 32 |} in
+  let s1 := mk_session 100 (Some "10.1.1.254") "" "10.2.2.254" true "" 200 "" None 179 None None None "pw" "" false false false [] ("", "") in
+  let s2 := mk_session 100 (Some "10.1.1.254") "" "192.168.1.1" true "" 200 "" None 179 None None None "" "" false false true [] ("sec", "ns") in
+  let many := mk_adv p 0 (map (fun k => (false, "65000:1")) (seq 0 64)) in
+  let ops := [MNew s1; MNew s2; MSet s2 [mk_adv p 100 []]; MSet s2 [mk_adv p 100 []; many]; MBfd [("b", 1%N)]; MExtra ""; MClose s1] in
+  hist_ok (gen_k8s "n") false (fun _ => True) minit ops /\
+  exists st last, mrun (gen_k8s "n") false minit None ops = (st, [true; true; true; false; true; true; true], last) /\
+                  map fst (ms_sessions st) = [sname s2] /\ last <> None /\ last = cfg_of (gen_k8s "n") st.
+Proof.
+  intros p s1 s2 many ops. split; [apply hist_ok_k8s_b_sound; vm_compute; reflexivity|].
+  eexists. eexists. split; [vm_compute; reflexivity|]. split; [vm_compute; reflexivity|]. split; [discriminate|vm_compute; reflexivity].
+Qed.
 
 (* non-vacuity *)
 Example C15_nonvacuous :
